@@ -107,6 +107,21 @@ func init() {
 	add(c17Addr{rest: "/ip4/2.2.2.1/tls"})
 }
 
+// many distinct observed addresses for one local address (many peers behind
+// a symmetric NAT: same IP, a different port seen by each): only used by the
+// directed "many tracked addresses" histories
+var c17Many []c17Addr
+
+func init() {
+	for i := 0; i < 130; i++ {
+		c17Many = append(c17Many, c17Addr{tw: fmt.Sprintf("/ip4/2.2.9.1/tcp/%d", 10000+i)})
+	}
+}
+
+func c17AllObserved() []c17Addr {
+	return append(append([]c17Addr(nil), c17Observed...), c17Many...)
+}
+
 type c17Tables struct {
 	localTW  map[string]int64 // local thin-waist string -> id
 	restID   map[string]int64 // rest string -> id
@@ -156,7 +171,7 @@ func c17Build(t testing.TB) *c17Tables {
 		T.locByStr[a.full()] = a
 	}
 	seen := map[string]bool{}
-	for _, a := range c17Observed {
+	for _, a := range c17AllObserved() {
 		T.obsByStr[a.full()] = a
 		if a.tw != "" && !seen[a.tw] {
 			seen[a.tw] = true
@@ -237,10 +252,11 @@ type c17ConnSpec struct {
 }
 
 type c17Op struct {
-	kind     int // 1 observe, 2 mark closed, 3 disconnect, 4 observe with a disconnect of conn `during` at the listenAddrs() call
+	kind     int // 1 observe, 2 mark closed, 3 disconnect, 4 observe with a disconnect of conn `during` at the listenAddrs() call, 5 two reports in quick succession
 	conn     int
 	observed c17Addr
 	during   int
+	second   c17Addr // kind 5: the second report of the pair
 }
 
 type c17Script struct {
@@ -344,6 +360,11 @@ func c17ExecIn(t *testing.T, out *verifh.Out, sc *c17Script, e2e bool) []int64 {
 	}
 	doObserve := func(c *c17Conn, a ma.Multiaddr) { o.maybeRecordObservation(c, a) }
 	doDisconnect := func(c *c17Conn) { o.removeConn(c) }
+	doPair := func(c *c17Conn, a, b ma.Multiaddr) bool {
+		o.maybeRecordObservation(c, a)
+		o.maybeRecordObservation(c, b)
+		return false
+	}
 	if e2e {
 		nw := &c17Net{}
 		o.Start(nw)
@@ -362,7 +383,24 @@ func c17ExecIn(t *testing.T, out *verifh.Out, sc *c17Script, e2e bool) []int64 {
 			if err := em.Emit(event.EvtPeerIdentificationCompleted{Conn: c, ObservedAddr: a}); err != nil {
 				t.Fatal(err)
 			}
-			synctest.Wait() // the worker has consumed the observation
+			synctest.Wait() // the worker has consumed the observation (or is held in a hook)
+		}
+		// two reports of one connection close together: the first is held inside
+		// shouldRecordObservation (at its listenAddrs() call) until the second has
+		// been emitted and everything that can run has run, then released
+		doPair = func(c *c17Conn, a, b ma.Multiaddr) bool {
+			stall := make(chan struct{})
+			held := false
+			hook = func() {
+				held = true
+				<-stall
+			}
+			doObserve(c, a)
+			doObserve(c, b)
+			hook = nil
+			close(stall)
+			synctest.Wait()
+			return held
 		}
 		doDisconnect = func(c *c17Conn) { nw.nf.Disconnected(nw, c) }
 		if out != nil {
@@ -428,6 +466,14 @@ func c17ExecIn(t *testing.T, out *verifh.Out, sc *c17Script, e2e bool) []int64 {
 					doDisconnect(d) // removeConn(d), before the worker takes o.mu
 				}
 			}
+			if out != nil && had && c.local != nil {
+				for _, m := range o.externalAddrs {
+					if len(m) >= 64 {
+						out.Cover("many.report_on_credited_conn_with_ge64_tracked_addrs")
+						break
+					}
+				}
+			}
 			doObserve(c, ma.StringCast(a.full()))
 			hook = nil
 			if op.kind == 4 {
@@ -484,6 +530,33 @@ func c17ExecIn(t *testing.T, out *verifh.Out, sc *c17Script, e2e bool) []int64 {
 							out.Cover("ignored.not_a_listen_addr")
 						}
 					}
+				}
+			}
+		case 5:
+			desc := func(a c17Addr) []int64 {
+				otw := int64(-1)
+				var fam, proto int64
+				if a.tw != "" {
+					otw = T.obsTW[a.tw]
+					fam, proto = c17FamProto(a.tw)
+				}
+				f := func(b bool) int64 {
+					if b {
+						return 1
+					}
+					return 0
+				}
+				return []int64{f(a.lb), f(a.n64), f(a.relay), otw, fam, proto}
+			}
+			line = append(line, 5, int64(op.conn))
+			line = append(line, desc(op.observed)...)
+			line = append(line, desc(op.second)...)
+			held := doPair(c, ma.StringCast(op.observed.full()), ma.StringCast(op.second.full()))
+			if out != nil {
+				if held {
+					out.Cover("pair.first_report_held_in_listenAddrs_while_second_queued")
+				} else {
+					out.Cover("pair.sequential")
 				}
 			}
 		case 2:
@@ -732,6 +805,16 @@ func c17Gen(r *verifh.Rand, nops int, malformed bool) *c17Script {
 			gone[c] = true
 		}
 	}
+	// two reports in quick succession
+	for i := range sc.ops {
+		if sc.ops[i].kind == 1 && r.Chance(1, 14) {
+			sc.ops[i].kind = 5
+			sc.ops[i].second = c17Pick(r, hot)
+			if r.Chance(1, 5) {
+				sc.ops[i].second = c17Pick(r, anyObs)
+			}
+		}
+	}
 	// close-during-observation interleavings
 	for i := range sc.ops {
 		if sc.ops[i].kind == 1 && r.Chance(1, 10) {
@@ -792,6 +875,78 @@ func c17Corpus(t *testing.T) []*c17Script {
 	return res
 }
 
+// directed: MANY distinct observed addresses tracked for one local address
+// (62..66 or 100, each vouched for by one connection), an address A advertised
+// with exactly the threshold of observers, then one of A's observers changes
+// its report (to a not yet tracked address / a tracked one / a loopback
+// address): A must be withdrawn whatever the size of the table.
+func c17GenMany(r *verifh.Rand) *c17Script {
+	sc := &c17Script{thresh: 1 + r.Intn(3), listen: []c17Addr{c17Locals[0]}, queries: []c17Addr{c17Locals[0]}}
+	fill := []int{62, 63, 64, 65, 66, 100}[r.Intn(6)]
+	A := c17Many[120+r.Intn(5)]
+	for i := 0; i < sc.thresh; i++ {
+		sc.conns = append(sc.conns, c17ConnSpec{local: c17Locals[0], remoteIP: fmt.Sprintf("1.2.10.%d", i+1), port: 1000})
+		sc.ops = append(sc.ops, c17Op{kind: 1, conn: i, observed: A})
+	}
+	for i := 0; i < fill; i++ {
+		sc.conns = append(sc.conns, c17ConnSpec{local: c17Locals[0], remoteIP: fmt.Sprintf("1.2.%d.%d", 11+i/200, i%200+1), port: 1000 + i%3})
+		sc.ops = append(sc.ops, c17Op{kind: 1, conn: sc.thresh + i, observed: c17Many[i]})
+	}
+	change := func(c int) {
+		switch k := r.Intn(10); {
+		case k < 6:
+			sc.ops = append(sc.ops, c17Op{kind: 1, conn: c, observed: c17Many[101+r.Intn(15)]})
+		case k < 8:
+			sc.ops = append(sc.ops, c17Op{kind: 1, conn: c, observed: c17Many[r.Intn(fill)]})
+		default:
+			sc.ops = append(sc.ops, c17Op{kind: 1, conn: c, observed: c17Observed[len(c17Observed)-1-r.Intn(3)]})
+		}
+	}
+	change(r.Intn(sc.thresh))
+	for i := 0; i < 6; i++ {
+		c := r.Intn(len(sc.conns))
+		switch r.Intn(3) {
+		case 0:
+			sc.ops = append(sc.ops, c17Op{kind: 3, conn: c})
+		case 1:
+			sc.ops = append(sc.ops, c17Op{kind: 1, conn: c, observed: A})
+		default:
+			change(c)
+		}
+	}
+	return sc
+}
+
+// directed: two reports of one connection close together on the event-bus
+// path; the report that counts is the LATEST one
+func c17GenPair(r *verifh.Rand) *c17Script {
+	sc := &c17Script{e2e: true, thresh: 1 + r.Intn(2), listen: []c17Addr{c17Locals[0]}, queries: []c17Addr{c17Locals[0]}}
+	for i := 0; i < 4; i++ {
+		sc.conns = append(sc.conns, c17ConnSpec{local: c17Locals[0], remoteIP: fmt.Sprintf("1.2.3.%d", i+1), port: 1000})
+	}
+	pick := func() c17Addr { return c17Many[r.Intn(6)] }
+	A, B := pick(), pick()
+	for B.tw == A.tw {
+		B = pick()
+	}
+	for i := 1; i < sc.thresh; i++ { // the others already vouch for B (and for A, on other conns)
+		sc.ops = append(sc.ops, c17Op{kind: 1, conn: i, observed: B})
+	}
+	sc.ops = append(sc.ops, c17Op{kind: 5, conn: 0, observed: A, second: B})
+	for i := 0; i < 4; i++ {
+		c := r.Intn(2) * 3 // conn 0 or conn 3
+		x, y := pick(), pick()
+		switch r.Intn(4) {
+		case 0: // the latest report is of a class that never counts
+			y = c17Observed[len(c17Observed)-1-r.Intn(3)]
+		case 1:
+			x = c17Observed[len(c17Observed)-1-r.Intn(3)]
+		}
+		sc.ops = append(sc.ops, c17Op{kind: 5, conn: c, observed: x, second: y})
+	}
+	return sc
+}
+
 func TestVerifNothing(t *testing.T) {}
 
 func TestVerifC17(t *testing.T) {
@@ -808,6 +963,14 @@ func TestVerifC17(t *testing.T) {
 	for _, sc := range c17Corpus(t) {
 		out.Case(c17Exec(t, out, sc, sc.e2e))
 		out.Cover("cases.corpus")
+	}
+	for i := 0; i < 10+n/300; i++ {
+		sc := c17GenMany(r.Fork())
+		out.Case(c17Exec(t, out, sc, i%5 == 4))
+		out.Cover("cases.many_tracked_addresses")
+		sc = c17GenPair(r.Fork())
+		out.Case(c17Exec(t, out, sc, true))
+		out.Cover("cases.pair_on_eventbus")
 	}
 	for i := 0; i < n; i++ {
 		rr := r.Fork()
@@ -892,25 +1055,28 @@ func c17ScriptFromCase(t *testing.T, toks []int64) *c17Script {
 		if op.conn < 0 || op.conn >= nc {
 			t.Fatalf("c17 replay: connection %d out of range", op.conn)
 		}
-		switch kind {
-		case 1, 4:
+		readObs := func() c17Addr {
 			lb, n64, rl, otw := next() != 0, next() != 0, next() != 0, next()
 			next()
 			next()
-			found := false
-			for _, a := range c17Observed {
+			for _, a := range c17AllObserved() {
 				atw := int64(-1)
 				if a.tw != "" {
 					atw = T.obsTW[a.tw]
 				}
 				if a.lb == lb && a.n64 == n64 && a.relay == rl && atw == otw {
-					op.observed, found = a, true
-					break
+					return a
 				}
 			}
-			if !found {
-				t.Fatalf("c17 replay: no observed address of that class")
-			}
+			t.Fatalf("c17 replay: no observed address of that class")
+			return c17Addr{}
+		}
+		switch kind {
+		case 5:
+			op.observed = readObs()
+			op.second = readObs()
+		case 1, 4:
+			op.observed = readObs()
 			if kind == 4 {
 				op.during = int(next())
 				next() // recorded "fired"
